@@ -124,6 +124,7 @@ func ExtraSchemas() []gschema.Schema {
 	} {
 		out = append(out, gschema.Field1(t, true), gschema.Field1(t, false))
 	}
+	out = append(out, ShapesSchema())
 	return out
 }
 
@@ -299,6 +300,7 @@ func Prepare(ws *genrun.Workspace, o Opts) (*Prepared, error) {
 		formats = gschema.Formats
 	}
 	variants := append([]Variant{{Name: ""}}, Variants()...)
+	variants = append(variants, ScenarioVariants()...)
 	var units []genrun.Unit
 	for i, s := range p.Schemas {
 		vals, _ := s.Validators()
